@@ -7,7 +7,7 @@ against real numpy in the thorough tier.
 import ast
 import z3
 
-from .core import (Sym, Arr, Arr2, LArr, SList, PyList, ObjRec, Ref, ClassVal,
+from .core import (Sym, Arr, Arr2, LArr, SList, PyList, FlatList, ObjRec, Ref, ClassVal,
                    Opaque, OutsideSubset, Raised, fresh, fresh_fn, uid, I, B,
                    concrete_int, concrete_bool, kind_of, sort_of)
 from . import arrays as A
@@ -463,7 +463,7 @@ def getattr_value(ex, st, o, name, node):
         if name == 'shape':
             return (Sym(d.nr, 'int'), Sym(d.nc, 'int'))
         return BoundMethod(o, name)
-    if isinstance(d, (PyList, LArr, SList, Opaque, Sym, str)):
+    if isinstance(d, (PyList, LArr, SList, FlatList, Opaque, Sym, str)):
         if isinstance(d, Sym) and name == '__class__':
             return Opaque('class')
         return BoundMethod(o, name)
@@ -699,14 +699,14 @@ def assign_subscript(ex, st, tgt, v):
                         dc.at(j) >= 0, dc.at(j) < d.nc)))
                     pos = fresh_fn(['int'], 'int', 'colpos')
                     j, c = A.qi('j'), A.qi('c')
-                    st.assume(z3.ForAll([j], z3.Implies(
+                    st.assume(A.QForAll([j], z3.Implies(
                         z3.And(j >= 0, j < dc.n), pos(dc.at(j)) == j),
                         patterns=[dc.at(j)]))
                     ishit = fresh_fn(['int'], 'bool', 'colhit')
-                    st.assume(z3.ForAll([j], z3.Implies(
+                    st.assume(A.QForAll([j], z3.Implies(
                         z3.And(j >= 0, j < dc.n), ishit(dc.at(j))),
                         patterns=[dc.at(j)]))
-                    st.assume(z3.ForAll([c], z3.Implies(
+                    st.assume(A.QForAll([c], z3.Implies(
                         ishit(c), z3.And(pos(c) >= 0, pos(c) < dc.n,
                                          dc.at(pos(c)) == c)),
                         patterns=[ishit(c)]))
@@ -868,6 +868,16 @@ def call_method(ex, st, recv, name, args, kwargs, node):
                 if c is None:
                     raise OutsideSubset('symbolic list.index', node)
             raise Raised('ValueError')
+    if isinstance(d, FlatList):
+        if name == 'append':
+            a = ex.deref(st, resolve(ex, st, args[0]))
+            if not isinstance(a, Arr):
+                raise OutsideSubset('append non-array to list of arrays', node)
+            if a.k != d.flat.k:
+                raise OutsideSubset('append {} array to list of {}'.format(
+                    a.k, d.flat.k), node)
+            st.set_cell(recv, FlatList(d.cnt + 1, A.concat2(d.flat, a)))
+            return None
     if isinstance(d, LArr):
         if name == 'append':
             a = ex.deref(st, resolve(ex, st, args[0]))
